@@ -241,6 +241,20 @@ Definition feed_all (fx : bool) (chunks : list bytes) : sk := fold_left (feed fx
 (* the code as it is now *)
 Definition socks_fx_head : bool := true.
 
+(* SSHSOCKSForwarder.eof_received (fe = true: the proposed repair, an EOF while the request is still
+   being parsed closes the forwarder; fe = false: inherited SSHForwarder.eof_received, which with no
+   peer just records the EOF and answers "keep open" - and nothing will ever close that socket).
+   Returns the new state and the answer given to the transport (true = keep the transport open).
+   Once the request is complete the inherited behaviour is the pair model's EofA. *)
+Definition seof (fe : bool) (s : sk) : sk * bool :=
+  if is_none (k_h s) then (s, true)
+  else if fe then (set_h (sclose s) HNone (k_need s), false)
+  else (s, true).
+
+(* the code as it is now: unrepaired *)
+Definition socks_eof_fx_head : bool := false.
+
+
 (* ---------------------------------------------------------------------------------------- *)
 (* Specification side: what a well-formed request is and what it asks for. *)
 
